@@ -1,10 +1,11 @@
 #!/bin/bash
 # usage: tools/equiv.sh  — runs every quick check against every behaviour-preserving patch
 # (mutants/EQ-*.patch); none may raise an alarm.
-out=/verif/seeded/EQUIVALENT.txt
+VH=${VERIF_HOME:-$(cd "$(dirname "$0")/.." && pwd)}   # the /verif tree these tools belong to (a snapshot works too)
+out=$VH/seeded/EQUIVALENT.txt
 : > $out.tmp
-for m in /verif/mutants/EQ-*.patch; do
-  res=$(SUITE=1 TMO=900 /verif/tools/mutant.sh $m C01 C02 C03 C04 C05 C06 C07 C08 C09 C10 C11 C12 C13 C14 C15 C18 C20 2>&1 | grep -E '^\[|^suite' | sed 's/ violation line(s)//' | tr '\n' ' ')
+for m in $VH/mutants/EQ-*.patch; do
+  res=$(SUITE=1 TMO=900 $VH/tools/mutant.sh $m C01 C02 C03 C04 C05 C06 C07 C08 C09 C10 C11 C12 C13 C14 C15 C18 C20 2>&1 | grep -E '^\[|^suite' | sed 's/ violation line(s)//' | tr '\n' ' ')
   echo -e "$(basename $m)\t$res" | tee -a $out.tmp
 done
 mv $out.tmp $out
